@@ -33,8 +33,8 @@ def cases(tier, seed, shard, nshards):
         kw = dict(steps=rng.choice([40, 80, 160]), p_bad=0.0, integer_sizes=rng.random() < 0.5,
                   p_suspend=rng.choice([0.2, 0.6, 1.0]), mem_heavy=True, p_unready=0.0,
                   overcommit=rng.random() < 0.6, small_ram=rng.random() < 0.5, npipes=rng.randint(3, 12))
-        if tier == "thorough" and i % 250 == 0:
-            kw.update(steps=30000, npipes=80, integer_sizes=False, drain=3000)  # float drift
+        if tier == "thorough" and i % 1200 == 0:
+            kw.update(steps=8000, npipes=40, integer_sizes=False, drain=3000)  # float drift
         yield _exec.mix_case(rng, i, **kw)
     for i in range(N_SIM[tier]):
         yield _sim.random_sim_case(rng, small=True, algos=("priority", "priority", "overbook", "overbook", "naive", "priority-pool"),
